@@ -2,6 +2,7 @@
    logged call on the extracted Coq model and reports where the results differ.
    History events are handed to the monitors (monitors.ml). *)
 open Model
+type string = Stdlib.String.t
 
 (* ------------------------------------------------------------------ s-expressions *)
 type sx = A of string | L of sx list
@@ -480,3 +481,88 @@ let check_call (f : string) (a : sx list) : string option =
       cmp nset_eqb show_nset (nset_of_list (List.map fst (nmap_to_list (mk_parents (merkle_sx s) (hid h))))) (nset_of_list (List.map hid (seq r)))
   | "serde", _, _ -> !serde_hook f a
   | _ -> bad "unknown call %s/%d" f (List.length a)
+
+(* ------------------------------------------------------------------ serde: real JSON vs the codec model *)
+let coq_string_of (str : string) : Model.string =
+  let ascii_of c =
+    let b i = (Char.code c lsr i) land 1 = 1 in
+    Ascii (b 0, b 1, b 2, b 3, b 4, b 5, b 6, b 7) in
+  let rec go i = if i >= String.length str then EmptyString else String (ascii_of str.[i], go (i + 1)) in
+  go 0
+let ostring_of_bytes x = String.concat "" (List.map (fun b -> String.make 1 (Char.chr (int_sx b))) (tagged "str" x))
+let is_digits str = str <> "" && String.for_all (fun c -> c >= '0' && c <= '9') str
+(* generic conversion of serde_json::Value (rendered by the harness) to the model's json *)
+let rec json_sx (x : sx) : json =
+  match x with
+  | L [] -> JNull
+  | A "true" -> JBool true
+  | A "false" -> JBool false
+  | A _ -> JNum (z_of_int (int_sx x))
+  | L (A "str" :: _) -> JStr (coq_string_of (ostring_of_bytes x))
+  | L (A "L" :: l) -> JArr (List.map json_sx l)
+  | L (A "M" :: l) ->
+      JObj (List.map (function
+        | L [k; v] ->
+            let ks = ostring_of_bytes k in
+            ((if is_digits ks then KNum (n_of_int (int_of_string ks)) else KField (coq_string_of ks)), json_sx v)
+        | y -> bad "json object member %s" (show_sx y)) l)
+  | _ -> bad "json %s" (show_sx x)
+(* MerkleReg: 32-byte hashes and byte-vector values become single numbers *)
+let merkle_json_sx (x : sx) : json =
+  let jh h = JNum (z_of_n (hid h)) in
+  let node nd = JObj [ (KField (coq_string_of "children"), JArr (List.map jh (seq (snd (List.find (fun (k, _) -> ostring_of_bytes k = "children") (pairs_of_map nd))))));
+                       (KField (coq_string_of "value"), JNum (z_of_n (bytes_n (snd (List.find (fun (k, _) -> ostring_of_bytes k = "value") (pairs_of_map nd)))))) ] in
+  let get name = snd (List.find (fun (k, _) -> ostring_of_bytes k = name) (pairs_of_map x)) in
+  let pairs v = JArr (List.map (fun p -> match seq p with [h; nd] -> JArr [jh h; node nd] | _ -> bad "dag pair") (seq v)) in
+  JObj [ (KField (coq_string_of "roots"), JArr (List.map jh (seq (get "roots"))));
+         (KField (coq_string_of "dag"), pairs (get "dag"));
+         (KField (coq_string_of "orphans"), pairs (get "orphans")) ]
+
+type any_codec = AC : 'v codec * (sx -> 'v) * ('v -> 'v -> bool) -> any_codec
+let codec_of (name : string) : any_codec option =
+  let lw x = { lww_val = n_sx (field "val" x); lww_marker = n_sx (field "marker" x) } in
+  let pn x = { pn_p = vc_sx (field "p" x); pn_n = vc_sx (field "n" x) } in
+  match name with
+  | "vclock" -> Some (AC (vclock_codec, vc_sx, vc_eqb))
+  | "gcounter" -> Some (AC (gcounter_codec, vc_sx, vc_eqb))
+  | "pncounter" -> Some (AC (pncounter_codec, pn, pn_eqb))
+  | "gset" -> Some (AC (gset_codec, nset_sx, nset_eqb))
+  | "maxreg" | "minreg" -> Some (AC (reg_codec, (fun x -> n_sx (field "val" x)), (=)))
+  | "lww" -> Some (AC (lww_codec, lw, lww_eqb))
+  | "orswot" -> Some (AC (orswot_codec, orswot_sx, orswot_eqb))
+  | "mvreg" -> Some (AC (mvreg_codec, mv_sx, mv_eqb))
+  | "mapmv" -> Some (AC (codec_mapmv, cmap_sx mv_inst, cmap_eqb mv_dec))
+  | "mapor" -> Some (AC (codec_mapor, cmap_sx or_inst, cmap_eqb orswot_dec))
+  | "mapmm" -> let i = map_inst mv_inst in Some (AC (codec_mapmm, cmap_sx i, cmap_eqb i.v_dec))
+  | "glist" -> Some (AC (codec_glist, glist_sx, (=)))
+  | "list" -> Some (AC (codec_list, clist_sx, clist_eqb))
+  | "merkle" -> Some (AC (merkle_codec, merkle_sx, merkle_eqb))
+  | _ -> None
+
+let () = serde_hook := (fun _ a ->
+  match a with
+  | A name :: s :: rest ->
+      (match codec_of name with
+       | None -> None
+       | Some (AC (c, parse, eqb)) ->
+           let v = parse s in
+           let e = enc c v in
+           (match rest with
+            | [A "err"] ->
+                if e = None then None else Some "model=serialisable impl=error"
+            | A "ok" :: j :: back :: _ ->
+                let real = if name = "merkle" then merkle_json_sx j else json_sx j in
+                (match e with
+                 | None -> Some "model=not-serialisable impl=ok"
+                 | Some je ->
+                     (match dec c real with
+                      | None -> Some "the model decoder rejects the real serde_json output"
+                      | Some v' when not (eqb v v') -> Some "the model decoder reads the real serde_json output as a different value"
+                      | Some _ ->
+                          if int_of_nat (json_size je) <> int_of_nat (json_size real) then
+                            Some (Printf.sprintf "model encoding has %d JSON nodes, the real output %d" (int_of_nat (json_size je)) (int_of_nat (json_size real)))
+                          else if not (eqb v (parse back)) then Some "the value restored by the implementation differs from the original (as model values)"
+                          else None))
+            | A "deerr" :: _ -> Some "impl cannot deserialise its own output"
+            | _ -> None))
+  | _ -> None)
